@@ -7,9 +7,9 @@ models of Model/NudgeRegion.lean that the region model and the theorems of Props
 route, index list {0, 1}, the router options as fields) from a model segment `s`, for nudging
 dimension `dim` ∈ {0, 1}. Generated kernels compute in exact rationals; the model's rounding `rnd`
 only occurs in `createVar` (zigzag centre) and the bridge for it is stated for `rnd = id`.
-Not regenerated (translator limits; hand models tied through the hook dump only): `shouldAlignWith`
-(`(finalSegment & rhs->finalSegment) != true` is a bit operation on promoted bools),
-`CmpLineOrder::operator()` (map lookups, optional out-pointer), `updatePositionsFromSolver`.
+Not regenerated (translator limits; hand models tied through the hook dump only):
+`CmpLineOrder::operator()` (map lookups, optional out-pointer), `updatePositionsFromSolver`, the body of
+`nudgeOrthogonalRoutes` itself.
 -/
 import AdaptaVerif.Gen.NudgeK
 import AdaptaVerif.Model.NudgeRegion
@@ -134,5 +134,66 @@ theorem gen_createSolverVariable_is_model (o : ROpts) (hr : ∀ r, o.rnd r = r) 
       by_cases h1 : (o.nudgeFinal && s.finalSeg) = true <;> by_cases h2 : s.hasCps = true <;> by_cases h3 : s.zigzag = true <;>
       by_cases h4 : s.fixed = true <;> by_cases h5 : s.finalSeg = true <;>
       simp_all [channelMax] <;> (try rfl)
+
+/-- the early-return loop of `hasCheckpointAtPosition` scans the checkpoints from index `cp` -/
+theorem hasCp_loop (position : Rat) (d : Nat) (self : SegK) (bound : Nat) : ∀ (fuel cp : Nat),
+    cp + fuel = self.checkpoints.length →
+    (NudgeK.hasCheckpointAtPosition_loop1 position d self bound fuel cp).1 =
+      if (self.checkpoints.drop cp).any (fun c => decide (c.getD d default = position)) then some true else none := by
+  intro fuel
+  induction fuel with
+  | zero =>
+    intro cp h
+    have : self.checkpoints.drop cp = [] := List.drop_eq_nil_of_le (by omega)
+    simp [NudgeK.hasCheckpointAtPosition_loop1, this]
+  | succ n ih =>
+    intro cp h
+    have hlt : cp < self.checkpoints.length := by omega
+    have hd : self.checkpoints.drop cp = self.checkpoints[cp] :: self.checkpoints.drop (cp + 1) :=
+      List.drop_eq_getElem_cons hlt
+    have hg : self.checkpoints.getD cp default = self.checkpoints[cp] := by
+      simp [List.getD, List.getElem?_eq_getElem hlt]
+    unfold NudgeK.hasCheckpointAtPosition_loop1
+    rw [hd, List.any_cons, hg]
+    by_cases hc : self.checkpoints[cp].getD d default = position
+    · simp only [hc, decide_true, if_true, Bool.true_or]
+    · simp only [hc, decide_false, Bool.false_eq_true, if_false, Bool.false_or]
+      exact ih (cp + 1) (by omega)
+
+/-- `hasCheckpointAtPosition(position, altDim)` -/
+theorem gen_hasCheckpointAtPosition_is_model (o : ROpts) (dim : Nat) (hd : dim < 2) (s : RSeg) (position : Rat) :
+    NudgeK.hasCheckpointAtPosition position ((dim + 1) % 2) (toK o dim s) = s.hasCpAt position := by
+  have h := hasCp_loop position ((dim + 1) % 2) (toK o dim s) (toK o dim s).checkpoints.length
+    (toK o dim s).checkpoints.length 0 (by omega)
+  unfold NudgeK.hasCheckpointAtPosition loopExit
+  simp only [Nat.sub_zero]
+  have hany : ((toK o dim s).checkpoints.drop 0).any (fun c => decide (c.getD ((dim + 1) % 2) default = position)) =
+      s.hasCpAt position := by
+    rcases dim_cases hd with rfl | rfl <;>
+      simp [toK, ptOf, RSeg.hasCpAt, List.any_map, Function.comp_def] <;>
+      (congr 1)
+  rw [hany] at h
+  generalize NudgeK.hasCheckpointAtPosition_loop1 position ((dim + 1) % 2) (toK o dim s) (toK o dim s).checkpoints.length
+    (toK o dim s).checkpoints.length 0 = r at h
+  obtain ⟨r1, r2⟩ := r
+  simp only at h
+  subst h
+  cases s.hasCpAt position <;> rfl
+
+/-- `shouldAlignWith` (calls the regenerated `overlapsWith`, `lowPoint`, `highPoint`,
+    `hasCheckpointAtPosition`) -/
+theorem gen_shouldAlignWith_is_model (o : ROpts) (dim : Nat) (hd : dim < 2) (a b : RSeg) :
+    NudgeK.shouldAlignWith (toK o dim b) dim (toK o dim a) = shouldAlignWith o a b := by
+  have pa := gen_points_are_model o dim hd a
+  have pb := gen_points_are_model o dim hd b
+  simp only [NudgeK.shouldAlignWith, gen_overlapsWith_is_model o dim hd, gen_hasCheckpointAtPosition_is_model o dim hd,
+    pa.1, pa.2.2.1, pa.2.2.2.1, pb.1, pb.2.2.1, pb.2.2.2.1, hasCps_toK, earlyExit, shouldAlignWith, AdaptaVerif.Gen.absR, absQ]
+  simp only [toK]
+  by_cases hc : a.conn = b.conn
+  · by_cases hfa : a.finalSeg = true <;> by_cases hfb : b.finalSeg = true <;> by_cases hca : a.hasCps = true <;>
+      by_cases hcb : b.hasCps = true <;> by_cases h1 : a.lo = b.hi <;> by_cases h2 : a.hi = b.lo <;>
+      by_cases hov : overlapsWith o a b = true <;>
+      simp [hc, hfa, hfb, hca, hcb, h1, h2, hov] <;> (repeat' split) <;> simp_all
+  · simp [hc]
 
 end AdaptaVerif.Props.C10Tie
